@@ -279,7 +279,7 @@ func (e *Engine) evCall(c *ast.CallExpr, st *State) []Value {
 				}
 				return []Value{{"false", types.Typ[types.Bool]}}
 			}
-		case "lastInt", "lastResStr", "lastResValue", "lastArgInt", "lastArgStr", "lastArgBool", "lastArgBytes":
+		case "lastInt", "lastResStr", "lastResValue", "lastArgInt", "lastArgStr", "lastArgBool", "lastArgBytes", "lastArgLen":
 			// lastInt("f"): first result of the latest call to f; lastArgInt("f", i): its i-th argument (`opt track`)
 			if e.isSpecHelper(id) {
 				tv := e.pk.Info.Types[c.Args[0]]
@@ -307,6 +307,13 @@ func (e *Engine) evCall(c *ast.CallExpr, st *State) []Value {
 				}
 				if !ok {
 					e.fail(c.Pos(), "%s(%q): no tracked call on this path (is the function listed in `opt track`?)", id.Name, name)
+				}
+				if id.Name == "lastArgLen" {
+					// the length the slice or string argument had when the call was made
+					if isString(v.Typ) {
+						return []Value{{sx("s_len", v.T), e.typeOf(c)}}
+					}
+					return []Value{{sx("l_len", v.T), e.typeOf(c)}}
 				}
 				return []Value{e.convert(st, v, e.typeOf(c), c.Pos())}
 			}
